@@ -111,6 +111,13 @@ for nm, m in (("f2_shrink_null_m1_1k", 1), ("f2_grow_null_m1_1k", 1), ("f2_grow_
       bounds={"chunk_usable_bytes": "16..1024 (symbolic)", "allocator": "A-null (refuses everything)", "limit": "any Option<usize>", "unwind": 6})
 
 
+for nm, m, q in (("grow_last", 1, ["C02"]), ("grow_notlast", 1, []), ("grow_zeroed_last", 1, ["C12"]), ("grow_zeroed_notlast", 1, ["C12"]),
+                  ("grow_zeroed_last", 8, []), ("shrink_last", 1, ["C02"]), ("shrink_last", 4, [])):
+    H("f2c_%s_m%d" % (nm, m), "__verif::f2c", "F2", quick=q, thorough=["C02", "C12"], timeout=1800, cost=90, mem_gb=12,
+      stubs=STUB_CUT + ["core::ptr::copy_nonoverlapping->cno_loop", "core::ptr::copy->copy_loop"], inst="&Bump<%d>" % m,
+      funcs=["<&Bump<M> as Allocator>::{grow,grow_zeroed,shrink}", "Bump::grow", "Bump::shrink"],
+      bounds={"chunk": "256 bytes, concrete positions", "old_size": "0..8", "new_size": "0..16", "alignments": "1..8", "contents": "symbolic", "neighbour": "4 bytes directly above"})
+
 # ---------------------------------------------------------------------------
 # F4 slow-decide (full-width magnitudes, A-null)
 # ---------------------------------------------------------------------------
@@ -237,7 +244,7 @@ F7TW = ["Bump::alloc_try_with", "Bump::try_alloc_try_with", "Bump::alloc_with", 
 def _f7(name, quick, thorough, stubs, funcs, bounds, inst, cost=40, allow=(), exempt=()):
     H(name, "__verif::f7", "F7", quick=quick, thorough=thorough, timeout=1500, cost=cost, stubs=stubs, inst=inst, funcs=funcs, bounds=bounds, allow=allow, exempt=exempt)
 for m in (1, 8, 16):
-    _f7("f7_tw_same_try_m%d" % m, ["C11"] if m in (1, 16) else [], ["C11", "C02", "C09"], STUB_NULL, F7TW,
+    _f7("f7_tw_same_try_m%d" % m, (["C11"] if m in (1, 16) else []) + (["C04"] if m == 16 else []), ["C11", "C02", "C09", "C04"], STUB_NULL, F7TW,
         {"chunk": "256-byte chunk, symbolic start/finger", "value": "Result<u64, E(u32, D)>", "initialiser": "fails or succeeds (symbolic)", "allocator": "A-null"}, "Bump<%d>, T=u64, E=(u32, Drop-ledger)" % m, cost=120)
 for m in (1, 16):
     _f7("f7_tw_same_inf_m%d" % m, ["C11"] if m == 1 else [], ["C11", "C02"], STUB_CUT, F7TW,
